@@ -27,6 +27,10 @@ const shim = "github.com/keep-network/keep-core/pkg/verifshim/"
 //	nosync notime noctx nogo nochan – switch a default off
 //	maprange:<expr>       – route `for … := range <expr>` through vsched.MapOrder
 //	loops                 – insert vsched.LoopHook(site) at the top of every for body
+//	chanrange:<expr>      – rewrite `for v := range <expr>` over a channel into Recv2 loop
+//	racy:<func>           – in function/method <func>: a scheduling point before every
+//	                        statement, and x.f++ / x.f op= e split into load; yield; store
+//	                        (models unsynchronised read-modify-write at statement level)
 type Options struct {
 	Opts    []string
 	Package string
@@ -102,6 +106,69 @@ func (r *rw) rewriteSelect(s *ast.SelectStmt) ast.Stmt {
 	return &ast.BlockStmt{List: append(pre, sw)}
 }
 
+var opOf = map[token.Token]token.Token{
+	token.ADD_ASSIGN: token.ADD, token.SUB_ASSIGN: token.SUB, token.MUL_ASSIGN: token.MUL,
+	token.QUO_ASSIGN: token.QUO, token.REM_ASSIGN: token.REM, token.AND_ASSIGN: token.AND,
+	token.OR_ASSIGN: token.OR, token.XOR_ASSIGN: token.XOR, token.SHL_ASSIGN: token.SHL,
+	token.SHR_ASSIGN: token.SHR, token.AND_NOT_ASSIGN: token.AND_NOT,
+}
+
+func yieldStmt() ast.Stmt { return &ast.ExprStmt{X: call("vsched", "Yield")} }
+
+func shared(e ast.Expr) bool {
+	switch e.(type) {
+	case *ast.SelectorExpr, *ast.IndexExpr, *ast.StarExpr:
+		return true
+	}
+	return false
+}
+
+// racyBlock inserts a scheduling point before every statement and splits
+// read-modify-write statements on non-local operands.
+func (r *rw) racyBlock(b *ast.BlockStmt) {
+	var out []ast.Stmt
+	for _, st := range b.List {
+		out = append(out, yieldStmt())
+		switch n := st.(type) {
+		case *ast.IncDecStmt:
+			if shared(n.X) {
+				t := r.tmp()
+				op := token.ADD
+				if n.Tok == token.DEC {
+					op = token.SUB
+				}
+				out = append(out,
+					&ast.AssignStmt{Lhs: []ast.Expr{t}, Tok: token.DEFINE, Rhs: []ast.Expr{n.X}},
+					yieldStmt(),
+					&ast.AssignStmt{Lhs: []ast.Expr{n.X}, Tok: token.ASSIGN, Rhs: []ast.Expr{&ast.BinaryExpr{X: t, Op: op, Y: &ast.BasicLit{Kind: token.INT, Value: "1"}}}})
+				continue
+			}
+		case *ast.AssignStmt:
+			if op, ok := opOf[n.Tok]; ok && len(n.Lhs) == 1 && shared(n.Lhs[0]) {
+				t := r.tmp()
+				out = append(out,
+					&ast.AssignStmt{Lhs: []ast.Expr{t}, Tok: token.DEFINE, Rhs: []ast.Expr{n.Lhs[0]}},
+					yieldStmt(),
+					&ast.AssignStmt{Lhs: []ast.Expr{n.Lhs[0]}, Tok: token.ASSIGN, Rhs: []ast.Expr{&ast.BinaryExpr{X: t, Op: op, Y: &ast.ParenExpr{X: n.Rhs[0]}}}})
+				continue
+			}
+		case *ast.IfStmt:
+			r.racyBlock(n.Body)
+			if eb, ok := n.Else.(*ast.BlockStmt); ok {
+				r.racyBlock(eb)
+			}
+		case *ast.ForStmt:
+			r.racyBlock(n.Body)
+		case *ast.RangeStmt:
+			r.racyBlock(n.Body)
+		case *ast.BlockStmt:
+			r.racyBlock(n)
+		}
+		out = append(out, st)
+	}
+	b.List = out
+}
+
 func unparen(e ast.Expr) ast.Expr {
 	for {
 		p, ok := e.(*ast.ParenExpr)
@@ -122,8 +189,14 @@ func exprString(fset *token.FileSet, e ast.Expr) string {
 func File(src, dst string, o Options) error {
 	on := map[string]bool{"sync": true, "time": true, "ctx": true, "go": true, "chan": true}
 	mapRanges := map[string]bool{}
+	chanRanges := map[string]bool{}
+	racyFuncs := map[string]bool{}
 	for _, op := range o.Opts {
 		switch {
+		case strings.HasPrefix(op, "chanrange:"):
+			chanRanges[strings.TrimPrefix(op, "chanrange:")] = false
+		case strings.HasPrefix(op, "racy:"):
+			racyFuncs[strings.TrimPrefix(op, "racy:")] = false
 		case strings.HasPrefix(op, "maprange:"):
 			mapRanges[strings.TrimPrefix(op, "maprange:")] = false
 		case strings.HasPrefix(op, "no"):
@@ -186,6 +259,22 @@ func File(src, dst string, o Options) error {
 	}
 
 	r := &rw{}
+	for _, d := range f.Decls {
+		fd, ok := d.(*ast.FuncDecl)
+		if !ok || fd.Body == nil {
+			continue
+		}
+		if _, want := racyFuncs[fd.Name.Name]; want {
+			racyFuncs[fd.Name.Name] = true
+			r.racyBlock(fd.Body)
+			r.needShed = true
+		}
+	}
+	for k, found := range racyFuncs {
+		if !found {
+			return fmt.Errorf("racy function %q not found in %s", k, src)
+		}
+	}
 	skip := map[ast.Node]bool{}
 	ast.Inspect(f, func(n ast.Node) bool {
 		if cc, ok := n.(*ast.CommClause); ok && cc.Comm != nil {
@@ -301,8 +390,26 @@ func File(src, dst string, o Options) error {
 				n.Value = key
 				n.Key = ast.NewIdent("_")
 				n.X = call("vsched", "MapOrder", n.X)
-			} else if on["chan"] && false {
-				_ = xs
+			} else if _, want := chanRanges[xs]; want {
+				chanRanges[xs] = true
+				r.needShed = true
+				// for v := range ch {B}  =>  for { v, ok := vsched.Recv2(ch); if !ok {break}; B }
+				okID := r.tmp()
+				var v ast.Expr = ast.NewIdent("_")
+				tok := token.DEFINE
+				if n.Key != nil {
+					v = n.Key
+					if n.Tok == token.ASSIGN {
+						tok = token.ASSIGN
+					}
+				}
+				var pre []ast.Stmt
+				if tok == token.ASSIGN {
+					pre = append(pre, &ast.DeclStmt{Decl: &ast.GenDecl{Tok: token.VAR, Specs: []ast.Spec{&ast.ValueSpec{Names: []*ast.Ident{okID}, Type: ast.NewIdent("bool")}}}})
+				}
+				pre = append(pre, &ast.AssignStmt{Lhs: []ast.Expr{v, okID}, Tok: tok, Rhs: []ast.Expr{call("vsched", "Recv2", n.X)}})
+				pre = append(pre, &ast.IfStmt{Cond: &ast.UnaryExpr{Op: token.NOT, X: okID}, Body: &ast.BlockStmt{List: []ast.Stmt{&ast.BranchStmt{Tok: token.BREAK}}}})
+				c.Replace(&ast.ForStmt{Body: &ast.BlockStmt{List: append(pre, n.Body.List...)}})
 			}
 		}
 		return true
@@ -313,6 +420,11 @@ func File(src, dst string, o Options) error {
 	for k, found := range mapRanges {
 		if !found {
 			return fmt.Errorf("maprange expression %q not found in %s", k, src)
+		}
+	}
+	for k, found := range chanRanges {
+		if !found {
+			return fmt.Errorf("chanrange expression %q not found in %s", k, src)
 		}
 	}
 	if r.needShed {
